@@ -1069,6 +1069,110 @@ def precond_tested(fn, sf, call, bool_mode=False):
         cname(call), ", ".join(render(a) for a in call.get("a", [])[:2]))
 
 
+class FlagGraph:
+    """the CFG of a function refined by the values of its bool *flags*: bool locals that are assigned more than once and only
+    ever receive the literals true / false (`bool first_pass(true); ... first_pass = false;`).  A state is (block, frozenset of
+    (flag decl id, value)); edges whose condition is decided by the flag values are pruned.  Without flags this is the CFG."""
+
+    def __init__(self, fn):
+        self.fn, self.cfg = fn, fn.cfg
+        self.lo = Locals(fn)
+        lo = self.lo
+        cand = {}
+        for d, v in lo.var.items():
+            if v.get("ref") or lo.writes.get(d, 0) == 0 or (fn.type(v.get("t")) or "").replace("const ", "").strip() != "bool":
+                continue
+            if v.get("init") is not None and strip(v["init"]).get("k") != "Bool":
+                continue
+            cand[d] = True
+        for n in fn.nodes():
+            if n.get("k") == "Assign" and strip(n["lhs"]).get("k") == "Ref" and strip(n["lhs"]).get("d") in cand:
+                if n.get("op") != "=" or strip(n["rhs"]).get("k") != "Bool":
+                    cand.pop(strip(n["lhs"])["d"], None)
+            elif n.get("k") == "Un" and n.get("op") in ("++", "--") and strip(n["e"]).get("k") == "Ref":
+                cand.pop(strip(n["e"]).get("d"), None)
+            elif is_call(n):
+                for i, a in enumerate(n.get("a", [])):
+                    a = strip(a) if isinstance(a, dict) else {}
+                    if a.get("k") == "Ref" and a.get("d") in cand:
+                        pt = fn.type(n["pt"][i]) if i < len(n.get("pt", [])) else "&"
+                        if ("&" in pt or "*" in pt) and "const" not in pt:
+                            cand.pop(a["d"], None)
+        self.flags = set(cand)
+
+    def after_block(self, b, fv):
+        if not self.flags:
+            return fv
+        vals = dict(fv)
+        for sid in self.cfg.blocks[b]["el"]:
+            n = self.fn.by_id(sid)
+            if n is None:
+                continue
+            self.step(n, vals)
+        return frozenset(vals.items())
+
+    def step(self, n, vals):
+        """effect of one CFG element on the flag values (dict, updated in place)"""
+        if n.get("k") == "Decl":
+            for v in n.get("vars", []):
+                if v["d"] in self.flags:
+                    if v.get("init") is not None:
+                        vals[v["d"]] = bool(strip(v["init"])["v"])
+                    else:
+                        vals.pop(v["d"], None)
+        elif n.get("k") == "Assign" and strip(n["lhs"]).get("k") == "Ref" and strip(n["lhs"]).get("d") in self.flags:
+            vals[strip(n["lhs"])["d"]] = bool(strip(n["rhs"])["v"])
+
+    def truth(self, c, vals):
+        """three-valued truth of a branch condition under the flag values (dict)"""
+        if c is None:
+            return None
+        c = self.lo.resolve(c)
+        k = c.get("k")
+        if k == "Bool":
+            return bool(c["v"])
+        if k == "Ref" and c.get("d") in self.flags:
+            return vals.get(c["d"])
+        if k == "Un" and c.get("op") == "!":
+            t = self.truth(c["e"], vals)
+            return None if t is None else not t
+        if k == "Bin" and c.get("op") in ("&&", "||"):
+            a, b = self.truth(c["lhs"], vals), self.truth(c["rhs"], vals)
+            if c["op"] == "&&":
+                return False if (a is False or b is False) else (True if (a and b) else None)
+            return True if (a or b) else (False if (a is False and b is False) else None)
+        if k == "Bin" and c.get("op") in ("==", "!="):
+            a, b = self.truth(c["lhs"], vals), self.truth(c["rhs"], vals)
+            if a is not None and b is not None and (self.fn.ntype(self.lo.resolve(c["lhs"])) or "").replace("const ", "").strip() == "bool":
+                return (a == b) == (c["op"] == "==")
+        return None
+
+    def edges(self, b, fv):
+        """successor states of (b, fv)"""
+        out = self.after_block(b, fv)
+        blk = self.cfg.blocks[b]
+        ss = blk.get("succ", [])
+        t = None
+        if self.flags and blk.get("cond") is not None and len(ss) == 2 and ss[0] != ss[1] and blk.get("term") != "SwitchStmt":
+            t = self.truth(self.fn.by_id(blk["cond"]), dict(out))
+        res = []
+        for pos, x in enumerate(ss):
+            if x is None or (t is not None and (pos == 0) != t):
+                continue
+            res.append((x, out))
+        return res
+
+    def reachable(self):
+        seen, st = set(), [(self.cfg.entry, frozenset())]
+        while st:
+            s0 = st.pop()
+            if s0 in seen or len(seen) > 20000:
+                continue
+            seen.add(s0)
+            st.extend(self.edges(*s0))
+        return seen
+
+
 def loop_updates(fn, sf, head, d):
     cfg = fn.cfg
     marked = set()
@@ -1085,23 +1189,34 @@ def loop_updates(fn, sf, head, d):
     # inner counted loops are entered at least once (their zero-trip exit is not a path of interest:
     # `for(k = 0; k <= dim; ++k)`); the exit edge of an inner loop head is followed only from its back edge
     inner = {b for b, blk in cfg.blocks.items() if b != head and blk.get("term") in ("ForStmt", "WhileStmt", "DoStmt") and len(blk.get("succ", [])) == 2}
-    reach, st = set(), [(None, body)]
-    seen_edges = set()
-    while st:
-        p, b = st.pop()
-        if (p, b) in seen_edges or b in marked or b is None:
-            continue
-        seen_edges.add((p, b))
-        reach.add(b)
-        if b == head:
-            continue
-        ss = cfg.succ.get(b, [])
-        if b in inner and p is not None and b not in cfg.dom.get(p, ()):
-            ss = cfg.blocks[b]["succ"][:1]
-        for t in ss:
-            st.append((b, t))
+    # The CFG is refined by the values of bool flags (FlagGraph): a trip that bypasses the update under `first_pass` and clears the
+    # flag leads to another state of the loop head; only a *cycle* through a head state without an update skips the criteria for good.
+    fg = FlagGraph(fn)
+    head_states = [x for x in fg.reachable() if x[0] == head]
+    cyc = None
+    for hs in head_states:
+        seen_edges, st = set(), [(hs, x) for x in fg.edges(*hs) if x[0] == body]
+        while st and cyc is None:
+            p, cur = st.pop()
+            b = cur[0]
+            if (p, cur) in seen_edges or b in marked:
+                continue
+            seen_edges.add((p, cur))
+            if cur == hs:
+                cyc = hs
+                break
+            nxt = fg.edges(*cur)
+            if b == head:
+                nxt = [x for x in nxt if x[0] == body]
+            elif b in inner and b not in cfg.dom.get(p[0], ()):
+                first = cfg.blocks[b]["succ"][0]
+                nxt = [x for x in nxt if x[0] == first]
+            for x in nxt:
+                st.append((cur, x))
+        if cyc is not None:
+            break
     ln = (fn.by_id(cfg.blocks[head]["cond"]) or {}).get("l") if cfg.blocks[head].get("cond") is not None else compress(cfg.block_lines([body])[:1])
-    if head in reach:
+    if cyc is not None:
         return False, "loop at line %s: some path from the loop head back to it passes no _set_new_defect/_update_defect assigning '%s' (the stopping criteria are skipped for that iteration)" % (ln, sf.lo.var[d]["n"])
     if not marked:
         return False, "loop at line %s has no defect update" % ln
@@ -4159,6 +4274,7 @@ class DefinedFlow:
         self.fn, self.methods, self.exempt, self.depth = fn, methods, exempt, depth
         self.lo = Locals(fn)
         self.shared = shared if shared is not None else {"reads": [], "entries": []}
+        self.fg = FlagGraph(fn)          # bool flags (`first_pass`) are propagated as constants like _num_iter
         cfg = fn.cfg
         back = {(b, h) for b in cfg.blocks for h in cfg.succ.get(b, []) if h is not None and h in cfg.dom.get(b, ())}
         heads = {h for b, h in back}
@@ -4183,14 +4299,15 @@ class DefinedFlow:
         for b in reach:
             for x in succ[b]:
                 npred[x] += 1
-        self.ins = {cfg.entry: (frozenset(entry), niter)}
+        self.ins = {cfg.entry: (frozenset(entry), niter, frozenset())}
         self.exit_state = None
         pending = dict(npred)
         order = [cfg.entry]
         while order:
             b = order.pop()
-            st, ni = self.ins[b]
+            st, ni, fv = self.ins[b]
             st, ni = self.transfer(b, set(st), ni)
+            fv = self.fg.after_block(b, fv)
             if b in cfg.normal_exit_preds():
                 self.exit_state = (frozenset(st), ni) if self.exit_state is None else (self.exit_state[0] & frozenset(st), ni if self.exit_state[1] == ni else None)
             blk = cfg.blocks[b]
@@ -4198,14 +4315,16 @@ class DefinedFlow:
                 allowed = True
                 if blk.get("cond") is not None and len(cfg.succ.get(b, [])) == 2 and x in cfg.succ[b]:
                     t = self.counter_truth(fn.by_id(blk["cond"]), ni)
+                    if t is None and self.fg.flags:
+                        t = self.fg.truth(fn.by_id(blk["cond"]), dict(fv))
                     if t is not None and cfg.succ[b][0] != cfg.succ[b][1]:
                         allowed = (cfg.succ[b].index(x) == 0) == t
                 if allowed:
                     if x in self.ins:
                         o = self.ins[x]
-                        self.ins[x] = (o[0] & frozenset(st), o[1] if o[1] == ni else None)
+                        self.ins[x] = (o[0] & frozenset(st), o[1] if o[1] == ni else None, o[2] & fv)
                     else:
-                        self.ins[x] = (frozenset(st), ni)
+                        self.ins[x] = (frozenset(st), ni, fv)
                 pending[x] -= 1
                 if pending[x] == 0 and x in self.ins:
                     order.append(x)
@@ -4477,32 +4596,37 @@ class FilterFlow:
                     e = self.lo.resolve(e.get("obj"))
                 if e.get("k") == "MCall" and cname(e) in NORM_CALLS:
                     self.counting_norms.add(e["i"])
-        self.ins = {cfg.entry: dict(entry)}
-        self.norm_state = {}
+        # states are kept apart by the values of bool flags (FlagGraph): the pass under `first_pass` and the later passes are not merged
+        self.fg = FlagGraph(fn)
+        start = (cfg.entry, frozenset())
+        self.ins = {start: dict(entry)}
         self.exit_state = {}
-        work = [cfg.entry]
+        work = [start]
         n = 0
-        while work and n < 4000:
+        while work and n < 8000:
             n += 1
-            b = work.pop()
-            out = self.transfer(b, dict(self.ins[b]), False)
+            cur = work.pop()
+            b = cur[0]
+            out = self.transfer(b, dict(self.ins[cur]), False)
             blk = cfg.blocks[b]
-            for pos, s2 in enumerate(blk.get("succ", [])):
-                if s2 is None or (self.pruner is not None and not self.pruner.edge_allowed(blk, pos)):
+            for s2, fv2 in self.fg.edges(*cur):
+                pos = blk.get("succ", []).index(s2)
+                if self.pruner is not None and not self.pruner.edge_allowed(blk, pos) and blk["succ"].count(s2) == 1:
                     continue
-                old = self.ins.get(s2)
+                nxt = (s2, fv2)
+                old = self.ins.get(nxt)
                 if old is None:
-                    self.ins[s2] = dict(out)
-                    work.append(s2)
+                    self.ins[nxt] = dict(out)
+                    work.append(nxt)
                 else:
                     new = self.join(old, out)
                     if new != old:
-                        self.ins[s2] = new
-                        work.append(s2)
+                        self.ins[nxt] = new
+                        work.append(nxt)
         first = True
-        for b in sorted(self.ins):
-            out = self.transfer(b, dict(self.ins[b]), True)
-            if b in cfg.normal_exit_preds():
+        for cur in sorted(self.ins, key=lambda x: (x[0], sorted(x[1]))):
+            out = self.transfer(cur[0], dict(self.ins[cur]), True)
+            if cur[0] in cfg.normal_exit_preds():
                 self.exit_state = dict(out) if first else self.join(self.exit_state, out)
                 first = False
 
@@ -4522,14 +4646,23 @@ class FilterFlow:
             # known filtered on one side only: fall back to the default
         return res
 
+    PFX = re.compile(r"^(m|p|pw|nf|ns):")       # marks: measured / norm pending / pending but written since / state when norm <id> was taken
+
     def read(self, st, k):
         if k in st:
             return st[k]
         if "[" in k:
             for k2, v in st.items():
-                if v is not None and not k2.startswith("m:") and may_alias(k, k2):
+                if v is not None and not self.PFX.match(k2) and may_alias(k, k2):
                     return v
         return None
+
+    def touched(self, st, k):
+        """vector k is written: it is no longer 'unmodified since measured'; a norm taken before is now older than the vector"""
+        for mk in [x for x in st if x.startswith("m:") and may_alias(x[2:], k)]:
+            del st[mk]
+        for pk in [x for x in st if x.startswith("p:") and may_alias(x[2:], k)]:
+            st["pw:" + pk[2:]] = st.pop(pk)
 
     def measure(self, st, kd, here, record, nm):
         """the defect update `nm` measures vector kd here: it must have been modified since the previous measurement"""
@@ -4548,8 +4681,7 @@ class FilterFlow:
         return None if k.startswith("?") else k
 
     def set_state(self, st, k, origin):
-        for mk in [x for x in st if x.startswith("m:") and may_alias(x[2:], k)]:
-            del st[mk]              # modified since it was last measured
+        self.touched(st, k)
         if origin is None:
             if "[" in k:
                 st[k] = None            # this very element (by the text of its index) is filtered now
@@ -4577,7 +4709,7 @@ class FilterFlow:
             if tgt is not None and tgt.get("k") == "Ref" and tgt.get("dk") in ("local", "param"):
                 tag = "%s:%s" % (tgt.get("dk"), tgt.get("n")) if tgt.get("dk") == "local" else "$" + tgt.get("n")
                 for key in [x for x in st if "[" in x and tag in x[x.find("["):]]:
-                    if st[key] is not None and not key.startswith("m:"):
+                    if st[key] is not None and not self.PFX.match(key):
                         st.setdefault(base_key(key) + "[?]", st[key])
                     del st[key]
                 continue
@@ -4614,19 +4746,37 @@ class FilterFlow:
                 e = lo.resolve(n["a"][0])
                 if e.get("k") == "MCall" and cname(e) == "wait":
                     e = lo.resolve(e.get("obj"))
-                if e.get("k") == "MCall" and cname(e) in NORM_CALLS and e.get("i") in self.norm_state:
+                if e.get("k") == "MCall" and cname(e) in NORM_CALLS and e.get("obj") is not None and self.vec_key(e["obj"]) is not None:
+                    kd = self.vec_key(e["obj"])
                     if record:
                         self.shared["nsites"] += 1
-                        kd, org = self.norm_state[e["i"]]
-                        if org is not None:
-                            self.shared["bad"].append((n.get("l"), fn.name, nm, kd, org))
+                        if isinstance(st.get("nf:%s" % e["i"]), str):
+                            self.shared["bad"].append((n.get("l"), fn.name, nm, kd, st["nf:%s" % e["i"]]))
+                    if nm == "_update_defect":
+                        # the measurement counts here, where the norm flows into the defect protocol; its object is the vector as it was when the norm was taken
+                        if record and isinstance(st.get("ns:%s" % e["i"]), str):
+                            self.shared.setdefault("stale", []).append(("line %s `%s`" % (e.get("l"), render(e)[:40]), fn.name, nm, kd, st["ns:%s" % e["i"]]))
+                        unmodified = [x for x in st if x.startswith("p:") and may_alias(x[2:], kd)]
+                        for x in [y for y in st if (y.startswith("p:") or y.startswith("pw:")) and may_alias(y.split(":", 1)[1], kd)]:
+                            del st[x]
+                        if unmodified:
+                            st["m:" + kd] = "line %s `%s`" % (e.get("l"), render(e)[:40])
                 continue
             if obj is not None and not own and nm in NORM_CALLS:
                 kv = self.vec_key(obj)
                 if kv is not None:
-                    self.norm_state[n["i"]] = (kv, self.read(st, kv))
+                    org = self.read(st, kv)
+                    st.pop("nf:%s" % n["i"], None)
+                    st.pop("ns:%s" % n["i"], None)
+                    if org is not None:
+                        st["nf:%s" % n["i"]] = org
                     if n["i"] in self.counting_norms:
-                        self.measure(st, kv, here, record, "_update_defect")      # the norm that a defect update counts is taken here
+                        stale = [v for x, v in st.items() if x.startswith("m:") and may_alias(x[2:], kv)]
+                        if stale:
+                            st["ns:%s" % n["i"]] = stale[0]
+                        for x in [y for y in st if (y.startswith("p:") or y.startswith("pw:")) and may_alias(y.split(":", 1)[1], kv)]:
+                            del st[x]
+                        st["p:" + kv] = here
                 continue
             # --- the iteration entered from apply()/correct()
             if own and nm == "_apply_intern":
@@ -4654,19 +4804,25 @@ class FilterFlow:
                 for key, org in st.items():
                     if org is None:
                         continue
-                    pre, bare = ("m:", key[2:]) if key.startswith("m:") else ("", key)
+                    mt = re.match(r"^(m|p|pw):", key)
+                    if self.PFX.match(key) and not mt:
+                        continue
+                    pre, bare = (mt.group(0), key[len(mt.group(0)):]) if mt else ("", key)
                     if bare in trans:
                         ent[pre + trans[bare]] = org
                     elif bare.startswith("this."):
                         ent[key] = org
                 sub = FilterFlow(callee, ent, self.methods, self.pruner_for, self.depth + 1, self.shared if record else {"entries": [], "bad": [], "nsites": 0, "unknown": []})
                 back = {v: k2 for k2, v in trans.items()}
-                for key in [x for x in st if (x[2:] if x.startswith("m:") else x).startswith("this.") or (x[2:] if x.startswith("m:") else x) in trans]:
+                for key in [x for x in st if not re.match(r"^(nf|ns):", x) and (re.sub(r"^(m|p|pw):", "", x).startswith("this.") or re.sub(r"^(m|p|pw):", "", x) in trans)]:
                     del st[key]
                 for key, org in sub.exit_state.items():
                     if org is None:
                         continue
-                    pre, bare = ("m:", key[2:]) if key.startswith("m:") else ("", key)
+                    mt = re.match(r"^(m|p|pw):", key)
+                    if self.PFX.match(key) and not mt:
+                        continue
+                    pre, bare = (mt.group(0), key[len(mt.group(0)):]) if mt else ("", key)
                     if bare in back:
                         st[pre + back[bare]] = org
                     elif bare.startswith("this."):
@@ -4708,8 +4864,7 @@ class FilterFlow:
                     if org is not None and self.read(st, kv) is None:
                         self.set_state(st, kv, "line %s `%s` adds %s" % (n.get("l"), render(n)[:50], org if org.startswith("the ") else "the value of " + org))
                     else:
-                        for mk in [x for x in st if x.startswith("m:") and may_alias(x[2:], kv)]:
-                            del st[mk]
+                        self.touched(st, kv)
                 elif nm in ("clear",):
                     self.set_state(st, kv, None)
                 else:
